@@ -23,9 +23,9 @@ def make_req(group, ident, issuances, with_git, port=None, defaulted=(), key_typ
     if "HTTP_ROOT" not in defaulted:
         env["HTTP_ROOT"] = "@DIR@/www"
     if "TACD_PID_ROOT" not in defaulted:
-        env["TACD_PID_ROOT"] = "@DIR@/run"
+        env["TACD_PID_ROOT"] = "@DIR@/run-pid"
     if "TACD_SOCK_ROOT" not in defaulted:
-        env["TACD_SOCK_ROOT"] = "@DIR@/run"
+        env["TACD_SOCK_ROOT"] = "@DIR@/run-sock"
     if group.endswith("tcp"):
         if "TACD_PORT" not in defaulted:
             env["TACD_PORT"] = str(port)
@@ -41,13 +41,14 @@ def make_req(group, ident, issuances, with_git, port=None, defaulted=(), key_typ
     }
     validate = {"http_root": "@DIR@/www", "retry_ms": 3000}
     if group.endswith("unix"):
-        validate["tls"] = {"mode": "unix", "sock_root": "@DIR@/run"}
+        validate["tls"] = {"mode": "unix", "sock_root": "@DIR@/run-sock"}
     else:
         validate["tls"] = {"mode": "tcp", "addr": "127.0.0.1:%s" % (port if "TACD_PORT" not in defaulted else 5001)}
     req = cfg.scenario(doc, cas=[{"validate": validate, "cert_lifetime_s": 10 * 86400}], phases=[{"attempts": issuances, "wall_budget_ms": 60000}])
     req["files"]["default_hooks.toml"] = shipped_hooks()
     req["files"]["www/.keep"] = ""
-    req["files"]["run/.keep"] = ""
+    req["files"]["run-pid/.keep"] = ""
+    req["files"]["run-sock/.keep"] = ""
     req["env"] = {"PATH": "%s:/usr/local/sbin:/usr/local/bin:/usr/sbin:/usr/bin:/sbin:/bin" % os.path.dirname(build.REL_TACD), "GIT_CONFIG_NOSYSTEM": "1",
                   "GIT_CONFIG_GLOBAL": "/dev/null"}
     req["keep_dir"] = True
@@ -63,7 +64,7 @@ def inspect_dir(d, meta):
     proofs = [p for p in glob.glob(os.path.join(d, "www", "**", "*"), recursive=True) if os.path.isfile(p) and ".well-known/acme-challenge" in p]
     if proofs:
         out.append(("no-leftovers", "%s|proof-file" % g, "no proof file left after validation", str([os.path.relpath(p, d) for p in proofs])))
-    left = [p for p in glob.glob(os.path.join(d, "run", "*")) if not p.endswith(".keep")]
+    left = [p for p in glob.glob(os.path.join(d, "run-*", "*")) if not p.endswith(".keep")]
     pids = [p for p in left if p.endswith(".pid")]
     socks = [p for p in left if p.endswith(".sock")]
     if pids:
@@ -169,7 +170,7 @@ def run(ctx):
         finally:
             cleanup(o)
     res.extra["histories"] = len(reqs)
-    res.assumptions = ["HTTP_ROOT, TACD_PID_ROOT and TACD_SOCK_ROOT are always set to scratch paths (their defaults /var/www and /run are system directories); TACD_HOST and TACD_PORT are also exercised defaulted",
+    res.assumptions = ["HTTP_ROOT, TACD_PID_ROOT and TACD_SOCK_ROOT are always set to three different scratch directories (their defaults /var/www and /run are system directories); TACD_HOST and TACD_PORT are also exercised defaulted",
                        "the CA 'resolves' every identifier to 127.0.0.1; the defaulted TACD_HOST case uses the identifier localhost",
                        "tacd daemonises before it binds: the CA retries the handshake for 3 s"]
     return res
